@@ -53,11 +53,15 @@ type event struct {
 	from uint64 // Start
 	k    int    // Ack / Register: stream index
 	ok   bool   // Ack
+	ctx  int    // Put: 0 = live context, 1 = context cancelled between the commit and the dispatch, 2 = cancelled before the call
 }
 
 func (e event) coq() string {
 	switch e.kind {
 	case evPut:
+		if e.ctx != 0 {
+			return fmt.Sprintf("SPutCtx %d %s", e.d, emit.Bool(e.ctx == 2))
+		}
 		return fmt.Sprintf("SPut %d", e.d)
 	case evStart:
 		return fmt.Sprintf("SStart %d %d", e.cid, e.from)
@@ -145,6 +149,9 @@ type pausingStore struct {
 	armed  bool
 	stored chan struct{}
 	resume chan struct{}
+	// giveUp, when set, is called right after the next successful write: the caller of Put gives up
+	// (its context is cancelled) while the commit is in flight
+	giveUp context.CancelFunc
 }
 
 func (p *pausingStore) Put(ctx context.Context, b *common.Beacon) error {
@@ -152,7 +159,12 @@ func (p *pausingStore) Put(ctx context.Context, b *common.Beacon) error {
 	p.mu.Lock()
 	armed := p.armed
 	p.armed = false
+	giveUp := p.giveUp
+	p.giveUp = nil
 	p.mu.Unlock()
+	if giveUp != nil && err == nil {
+		giveUp()
+	}
 	if armed {
 		p.stored <- struct{}{}
 		<-p.resume
@@ -333,19 +345,39 @@ func (w *world) do(e event) {
 	ctx := context.Background()
 	switch e.kind {
 	case evPut:
-		w.head++
-		b := &common.Beacon{Round: w.head, Signature: tokSig(e.d)}
-		w.toks[w.head] = e.d
+		round := w.head + 1
+		b := &common.Beacon{Round: round, Signature: tokSig(e.d)}
+		pctx := ctx
+		if e.ctx != 0 {
+			var cancel context.CancelFunc
+			pctx, cancel = context.WithCancel(ctx)
+			if e.ctx == 2 {
+				cancel()
+			} else {
+				w.pause.mu.Lock()
+				w.pause.giveUp = cancel
+				w.pause.mu.Unlock()
+			}
+			defer cancel()
+		}
 		done := make(chan error, 1)
-		go func() { done <- w.cbs.Put(ctx, b) }()
+		go func() { done <- w.cbs.Put(pctx, b) }()
 		select {
 		case err := <-done:
-			if err != nil {
+			if err != nil && e.ctx == 0 {
 				w.note("Put failed: %v", err)
 			}
 		case <-time.After(Deadline):
-			w.note("Put of round %d did not return within %v", w.head, Deadline)
+			w.note("Put of round %d did not return within %v", round, Deadline)
 		}
+		if e.ctx != 0 {
+			// what counts is whether the store accepted the beacon (a cancelled context makes bolt refuse)
+			if last, err := w.base.Last(ctx); err != nil || last.Round != round {
+				return
+			}
+		}
+		w.head = round
+		w.toks[round] = e.d
 		for k, r := range w.runs {
 			switch r.phase {
 			case "scan":
@@ -636,6 +668,27 @@ func witnessScenarios(rng *rand.Rand) []scenario {
 	s5 = append(s5, puts(rng, 2)...)
 	s5 = append(s5, event{kind: evAck, k: 1, ok: true}, event{kind: evAck, k: 2, ok: false}, event{kind: evAck, k: 1, ok: true})
 	out = append(out, scenario{name: "start-rounds", genesis: 7, script: s5})
+	// a Put whose caller gives up (context cancelled) between the commit and the dispatch, with live
+	// streams: the beacon is in the store, every live stream must still get it
+	for _, mode := range []int{1, 2} {
+		s6 := puts(rng, 3)
+		s6 = append(s6, event{kind: evStart, cid: 1, from: 2}, event{kind: evAck, k: 0, ok: true}, event{kind: evAck, k: 0, ok: true},
+			event{kind: evRegister, k: 0},
+			event{kind: evStart, cid: 2, from: 0}, event{kind: evRegister, k: 1},
+			event{kind: evStart, cid: 3, from: 3}, event{kind: evAck, k: 2, ok: true}, event{kind: evRegister, k: 2})
+		s6 = append(s6, puts(rng, 1)...)
+		s6 = append(s6, event{kind: evAck, k: 0, ok: true}, event{kind: evAck, k: 1, ok: true}, event{kind: evAck, k: 2, ok: true})
+		s6 = append(s6, event{kind: evPut, d: 555, ctx: mode})
+		s6 = append(s6, event{kind: evAck, k: 0, ok: true}, event{kind: evAck, k: 1, ok: true}, event{kind: evAck, k: 2, ok: true})
+		s6 = append(s6, puts(rng, 2)...)
+		s6 = append(s6, event{kind: evAck, k: 0, ok: true}, event{kind: evAck, k: 1, ok: true}, event{kind: evAck, k: 2, ok: true},
+			event{kind: evAck, k: 0, ok: true}, event{kind: evAck, k: 1, ok: true}, event{kind: evAck, k: 2, ok: true})
+		name := "live-put-context-cancelled-after-commit"
+		if mode == 2 {
+			name = "live-put-context-cancelled-before-call"
+		}
+		out = append(out, scenario{name: name, genesis: 7, script: s6})
+	}
 	return out
 }
 
@@ -698,7 +751,11 @@ func randomScenario(rng *rand.Rand, windowPuts bool) scenario {
 			if inWindow && !windowPuts {
 				continue
 			}
-			s = append(s, event{kind: evPut, d: 100 + rng.Int63n(900)})
+			pe := event{kind: evPut, d: 100 + rng.Int63n(900)}
+			if x := rng.Intn(8); x < 2 {
+				pe.ctx = 1 + x // the generator's shadow takes the memdb view: the beacon is stored
+			}
+			s = append(s, pe)
 			head++
 			nput++
 			for k, t := range st {
@@ -972,7 +1029,7 @@ func Run(outDir string, seed int64, tier string) error {
 		}
 	}
 	rep.DistinctNontrivial = len(distinct)
-	rep.Rule = "real SyncChain over the real callback store on memdb, trimmed bolt and untrimmed bolt; Send and AddCallback gated so that the harness places every Put relative to each scan step and registration; witness scripts (Put between scan end and AddCallback, Put during the scan, no Put in the window, same-id reconnect, start at 0 / head / beyond head; a Put paused between its store write and its dispatch while AddCallback runs - monitor only) and random scripts with 1-3 concurrent streams, reconnects and refused Sends; distinct = distinct (back-end, event); an evaluation = one event"
+	rep.Rule = "real SyncChain over the real callback store on memdb, trimmed bolt and untrimmed bolt; Send and AddCallback gated so that the harness places every Put relative to each scan step and registration; witness scripts (Puts whose context is cancelled between the commit and the dispatch or before the call while several streams are live, Put between scan end and AddCallback, Put during the scan, no Put in the window, same-id reconnect, start at 0 / head / beyond head; a Put paused between its store write and its dispatch while AddCallback runs - monitor only) and random scripts with 1-3 concurrent streams, reconnects, refused Sends and Puts with cancelled contexts; distinct = distinct (back-end, event); an evaluation = one event"
 	if err := rep.Shard(outDir, "cases_stream", []string{"From DV Require Import Model.Stream Corr.StreamCorr."}, "scase", "mismatches", cases, descr, 60); err != nil {
 		return err
 	}
